@@ -5,7 +5,8 @@
 # through VERIF_REPO, and remove the worktree.
 id=$1; shift; props=${@:-${id%%-*}}
 wt=$(mktemp -d /tmp/verif_seedwt_XXXXXX); rmdir $wt
-git -C /repo worktree add -q --detach $wt HEAD || exit 9
+base=HEAD; [ -f /verif/seeded/$id/base ] && base=$(cat /verif/seeded/$id/base)     # a change written against an older commit that a later fix: commit made unapplicable
+git -C /repo worktree add -q --detach $wt $base || exit 9
 cleanup() { git -C /repo worktree remove --force $wt 2>/dev/null; git -C /repo worktree prune; }
 trap cleanup EXIT
 if git -C $wt apply --check /verif/seeded/$id/patch.diff 2>/dev/null; then git -C $wt apply /verif/seeded/$id/patch.diff
